@@ -75,7 +75,7 @@ func evalC13(cs *c13Case) (vs []*Violation, ok bool) {
 	buf := []byte(cs.Msg)
 	add := func(rule, class, detail string) {
 		c := mkCase("C13", "ParseSIPMsg", &Cfg{Flags: uint(cs.Flags), HdrCap: cs.HdrCap, ValCap: cs.ValCap}, buf, nil)
-		c.Extra = map[string]any{"case": cs}
+		c.Extra = map[string]any{"case": *cs} // a copy: callers re-use their case variables
 		vs = append(vs, &Violation{Property: "C13", Site: "ParseSIPMsg", Rule: rule, Class: class, Detail: detail, Case: c})
 	}
 	defer recoverTo3(add)
@@ -156,7 +156,7 @@ func evalC13List(cs *c13List) (vs []*Violation) {
 	}
 	add := func(rule, class, detail string) {
 		c := mkCase("C13list", site, &Cfg{Flags: cs.Flags, ValCap: cs.Cap, HdrCap: -1}, buf, nil)
-		c.Extra = map[string]any{"case": cs}
+		c.Extra = map[string]any{"case": *cs} // a copy: callers re-use their case variables
 		vs = append(vs, &Violation{Property: "C13", Site: site, Rule: rule, Class: class, Detail: detail, Case: c})
 	}
 	defer recoverTo3(add)
